@@ -156,7 +156,16 @@ int main(void)
 			if (parse_bytes(drv_w[4], &dat, &dlen, &isnull)) { puts("bad-op"); continue; }
 			len = (long) dlen;
 			if (isnull || (drv_nw == 6 && (parse_len(drv_w[5], &len) || len < 0 || len > (long) dlen))) { __real_free(dat); puts("bad-op"); continue; }
-			put_found(mpt_node_locate(node_of[k], (int) pos, dat, (size_t) len, -1));
+			if (drv_nw == 6) {
+				/* explicit length: the name is a slice of the longer buffer, followed by its remaining bytes */
+				put_found(mpt_node_locate(node_of[k], (int) pos, dat, (size_t) len, -1));
+			} else {
+				/* the name ends exactly at the end of its block: no terminator behind it, ASan sees any read past it */
+				uint8_t *exact = __real_malloc(dlen ? dlen : 1);
+				memcpy(exact, dat, dlen);
+				put_found(mpt_node_locate(node_of[k], (int) pos, exact, dlen, -1));
+				__real_free(exact);
+			}
 			__real_free(dat);
 		}
 		else if (!strcmp(op, "next") && drv_nw == 4) {
